@@ -219,6 +219,7 @@ def _expand_partial_output(partial, sl_map, output_unroll_info):
     config = partial.config
     backend = config.backend
     nsym = config.sym.NSYM
+    partial = partial.consume_transpose()  # keys of output_unroll_info follow the order of output legs; blocks are addressed natively below
     ndim = partial.ndim_n
     dtype = partial.yastn_dtype
     device = partial.device
